@@ -223,6 +223,13 @@ C["C14"]["harnesses"] += [
 ]
 C["C14"]["assumptions"] += ["resume round trip: bbolt replaced by its key/value contract (nested buckets as maps, Put stores a copy), encoding/json replaced by an opaque faithful encoding (tracker / url / peer lists not examined byte-wise)"]
 
+C["C14"]["harnesses"] += [
+    H("ZZCompactDatabase", "torrent", "CompactDatabase on a session holding one torrent in an arbitrary resting state (with/without metadata, with/without bitfield, arbitrary flags, uploaded counter 0..3 GiB) through the real boltdbresumer into the key/value contract of bbolt: no crash; a torrent with metadata gets a record whose fields read back equal to the torrent's state", T(80, 900, flags=["-nospawn"]), T(80, 900, flags=["-nospawn"]), replay="model"),
+]
+C["C04"]["harnesses"] += [
+    H("ZZStopAfterDownloadOnce", "torrent", "complete torrent added with stop-after-download: stops by itself once and clears the option once; a later start command takes effect (Seeding), the option is not cleared twice", T(40, 600, flags=["-nospawn"]), T(40, 600, flags=["-nospawn"]), replay="model"),
+]
+
 for pid, spec in C.items():
     spec = dict(property=pid, **spec)
     json.dump(spec, open(os.path.join(D, pid + ".json"), "w"), indent=1)
